@@ -925,6 +925,10 @@ func (w *lcWorld) startFlush() {
 		if err := st.Flush(false); err != nil {
 			return "err"
 		}
+		if !w.sv.IsClosed() {
+			// (free-running mode only: the peer's loop read the payload, the call completed while the session was alive)
+			return "done"
+		}
 		return "ok"
 	})
 }
@@ -984,17 +988,26 @@ func (w *lcWorld) startStreamClose(i int) {
 }
 
 func (w *lcWorld) tryOpen() {
-	st, err := w.sv.OpenStream()
-	r := "err"
-	if err == nil && st == nil {
-		r = "nilnil"
-	} else if err == nil {
-		r = "ok"
-		st.Close()
+	// OpenStream on a shut-down session takes shutdownLock, which the teardown lambda holds (also while it waits for a
+	// running callback): the call may block until the teardown is over, so it never runs on the driver's goroutine
+	c := w.goCall("o", func() string {
+		st, err := w.sv.OpenStream()
+		r := "err"
+		if err == nil && st == nil {
+			r = "nilnil"
+		} else if err == nil {
+			r = "ok"
+			st.Close()
+		}
+		w.mu.Lock()
+		w.lastOpen = r
+		w.mu.Unlock()
+		return r
+	})
+	select {
+	case <-c.done:
+	case <-time.After(2 * time.Second):
 	}
-	w.mu.Lock()
-	w.lastOpen = r
-	w.mu.Unlock()
 }
 
 func (w *lcWorld) releaseCb(i int) {
@@ -1090,8 +1103,8 @@ func (w *lcWorld) checkPanics(step int) {
 		if c.finished() && c.panicVal != "" {
 			v := lcViolation{Kind: "panic", Detail: c.name + ": " + c.panicVal, Schedule: w.sc.Name, Step: step}
 			if (c.name == "w" || c.name == "fl") && w.sv.IsClosed() && strings.Contains(c.panicVal, "linkedBuffer).Write") {
-				// a BufferWriter write that raced with / came after the unmap of the teardown (free-running loop only)
-				v.Known = "write-after-teardown-faults"
+				// a BufferWriter write in flight while Close + teardown clean the stream / unmap (free-running loop only)
+				v.Known = "stream-op-races-unmap"
 			}
 			w.res.Violations = append(w.res.Violations, v)
 			c.panicVal = ""
@@ -1582,6 +1595,10 @@ func (w *lcWorld) replayReal() {
 			w.startAccept()
 		case "ParkFlush":
 			w.startFlush()
+			// the user's WriteBytes + Flush must have reached the blocking socket write before anything else happens
+			for d2 := time.Now().Add(lcWait); w.observe().Fl == "starting" && time.Now().Before(d2); {
+				time.Sleep(time.Millisecond)
+			}
 		case "CbRelease":
 			w.releaseCb(st.S - 1)
 		case "TryOpen":
@@ -2123,7 +2140,20 @@ func TestVS_Lifecycle(t *testing.T) {
 					continue
 				}
 				logp("start " + job.Schedules[i].Name)
+				// watchdog: a behaviour that is still running after 3 minutes leaves the stacks of all goroutines behind
+				stopDog := make(chan struct{})
+				go func(name string) {
+					select {
+					case <-stopDog:
+					case <-time.After(3 * time.Minute):
+						buf := make([]byte, 4<<20)
+						buf = buf[:runtime.Stack(buf, true)]
+						os.WriteFile(filepath.Join(dir, "watchdog-"+name+".txt"), buf, 0644)
+						logp("stuck " + name)
+					}
+				}(job.Schedules[i].Name)
 				out.Results[i] = lcRunSchedule(&job.Schedules[i], job.Mode, dir, known)
+				close(stopDog)
 				logp("end " + job.Schedules[i].Name)
 				for _, v := range out.Results[i].Violations {
 					if v.Known == "" || !known[v.Known] {
